@@ -142,6 +142,23 @@ pub(crate) fn split_os_argument(input: &std::ffi::OsStr) -> Option<(ArgType, Str
             Some(os_from_vec(vec).to_str()?.to_owned())
         }
 
+        // number of elements the first character takes
+        fn first_char_width(name: &[Elt]) -> usize {
+            #[cfg(unix)]
+            let width = match name.first() {
+                Some(0xC0..=0xDF) => 2,
+                Some(0xE0..=0xEF) => 3,
+                Some(0xF0..=0xFF) => 4,
+                _ => 1,
+            };
+            #[cfg(windows)]
+            let width = match name.first() {
+                Some(0xD800..=0xDBFF) => 2,
+                _ => 1,
+            };
+            width.min(name.len())
+        }
+
         // but in either case dashes and equals are just literal values just with different width
         const DASH: Elt = b'-' as Elt;
         const EQUALS: Elt = b'=' as Elt;
@@ -180,11 +197,14 @@ pub(crate) fn split_os_argument(input: &std::ffi::OsStr) -> Option<(ArgType, Str
         loop {
             match items.next() {
                 Some(EQUALS) => {
-                    if ty == ArgType::Short && name.len() > 1 {
-                        let mut body = name.drain(1..).collect::<Vec<_>>();
+                    // the name of a short item is its first character, which can take more
+                    // than one element
+                    let first = first_char_width(&name);
+                    if ty == ArgType::Short && name.len() > first {
+                        let mut body = name.drain(first..).collect::<Vec<_>>();
                         body.push(EQUALS);
                         body.extend(items);
-                        name.truncate(1);
+                        name.truncate(first);
                         let os = Arg::ArgWord(os_from_vec(body));
                         return Some((ty, str_from_vec(name)?, Some(os)));
                     }
@@ -245,11 +265,12 @@ pub(crate) fn split_os_argument_fallback(
     loop {
         match chars.next() {
             Some('=') => {
-                if ty == ArgType::Short && name.len() > 1 {
-                    let mut body = name.drain(1..).collect::<String>();
+                let first = name.chars().next().map_or(0, char::len_utf8);
+                if ty == ArgType::Short && name.len() > first {
+                    let mut body = name.drain(first..).collect::<String>();
                     body.push('=');
                     body.extend(chars);
-                    name.truncate(1);
+                    name.truncate(first);
                     let os = Arg::ArgWord(OsString::from(body));
                     return Some((ty, name, Some(os)));
                 }
